@@ -176,6 +176,43 @@ type xcase struct {
 	Family  string     `json:"family"`
 	Alg     string     `json:"alg,omitempty"` // HMAC algorithm of query and envelopes ("" = hmac-sha256.)
 	Compress bool      `json:"compress,omitempty"` // envelopes packed with name compression
+	// key configuration of this transfer ("" = keyName / secret / secret2); seq.go
+	// runs sequences of transfers in one process in which it changes
+	KeyName    string            `json:"key_name,omitempty"`        // the name of the key of query and envelopes
+	RecvSecret string            `json:"receiver_secret,omitempty"` // what Transfer.TsigSecret holds under that name
+	SendSecret string            `json:"other_secret,omitempty"`    // the secret of a sender whose sigSpec.Key is 1
+	RecvKeys   map[string]string `json:"receiver_other_keys,omitempty"` // further entries of Transfer.TsigSecret
+	Step       string            `json:"step,omitempty"`            // position in its sequence, what came before
+	Reused     bool              `json:"transfer_value_reused,omitempty"`
+}
+
+func (c xcase) kname() string {
+	if c.KeyName != "" {
+		return c.KeyName
+	}
+	return keyName
+}
+func (c xcase) rsecret() string {
+	if c.RecvSecret != "" {
+		return c.RecvSecret
+	}
+	return secret
+}
+func (c xcase) osecret() string {
+	if c.SendSecret != "" {
+		return c.SendSecret
+	}
+	return secret2
+}
+
+// what Transfer.TsigSecret is for this case
+func (c xcase) recvKeys() map[string]string {
+	m := map[string]string{keySecond: secret2}
+	for k, v := range c.RecvKeys {
+		m[k] = v
+	}
+	m[c.kname()] = c.rsecret()
+	return m
 }
 
 func (c xcase) m0tag() int {
@@ -369,10 +406,10 @@ func buildFrame(c xcase, r readSpec, macs map[int]string, now int64) []byte {
 	var prevMAC []byte
 	if r.Sig != nil {
 		s := r.Sig
-		name, sec := keyName, secret
+		name, sec := c.kname(), c.rsecret()
 		switch s.Key {
 		case 1:
-			sec = secret2
+			sec = c.osecret()
 		case 2:
 			name = keyOther
 		}
@@ -501,6 +538,7 @@ type obs struct {
 	frames   int
 	readsAfterClose int
 	inErr    string
+	query    []byte // what Transfer.In wrote to the connection
 }
 
 func errClass(err error) string {
@@ -536,7 +574,7 @@ func mkQuery(c xcase) *dns.Msg {
 	}
 	q.Id = c.Qid
 	if c.Tsig && c.QSigned {
-		q.SetTsig(keyName, algOf(c.Alg).name, 300, time.Now().Unix())
+		q.SetTsig(c.kname(), algOf(c.Alg).name, 300, time.Now().Unix())
 	}
 	return q
 }
@@ -585,12 +623,17 @@ func collect(c xcase, ch chan *dns.Envelope, atClose func() int) (o obs) {
 	}
 }
 
-func runScripted(c xcase) obs {
+func runScripted(c xcase) obs { return runScriptedOn(new(dns.Transfer), c) }
+
+// runScriptedOn: the transfer described by c made with the Transfer value t (a
+// new one, or one that has made other transfers before: seq.go)
+func runScriptedOn(t *dns.Transfer, c xcase) obs {
 	sc := &scriptConn{chunk: c.Chunk, stall: c.Stall}
 	sc.script = func(q []byte) ([]byte, []int) { return buildStream(c, q) }
-	t := &dns.Transfer{Conn: &dns.Conn{Conn: sc}}
+	t.Conn = &dns.Conn{Conn: sc}
+	t.TsigSecret = nil
 	if c.Tsig {
-		t.TsigSecret = map[string]string{keyName: secret, keySecond: secret2}
+		t.TsigSecret = c.recvKeys()
 	}
 	ch, err := t.In(mkQuery(c), "scripted")
 	if err != nil {
@@ -598,6 +641,9 @@ func runScripted(c xcase) obs {
 	}
 	o := collect(c, ch, func() int { sc.mu.Lock(); defer sc.mu.Unlock(); return sc.closed })
 	o.frames = sc.framesConsumed()
+	sc.mu.Lock()
+	o.query = clone(sc.wrote)
+	sc.mu.Unlock()
 	// A frame cut short is one class of failed read in the model.  Depending on
 	// where the cut falls the error is EOF, unexpected EOF, an unpack error or
 	// (header-only remainder with TSIG configured) a TSIG error: all are "read".
@@ -668,6 +714,7 @@ func check(c xcase, o obs, ex *expect) {
 			break
 		}
 	}
+	checkQuery(c, o, in)
 	if ex == nil {
 		return
 	}
@@ -1428,6 +1475,10 @@ func runC15(r *Rng, tier string, n int) {
 
 	// ---- R, S. records of every type kept until the end of the transfer; envelope lengths at the limits (rich.go)
 	richFamilies(r, thorough)
+
+	// ---- T. sequences of transfers while the TSIG configuration changes, incoming and outgoing (seq.go)
+	seqIn(r, thorough)
+	seqOut(r, thorough)
 
 	// ---- H. real loopback TCP server using Transfer.Out
 	loopback(r, thorough)
